@@ -244,15 +244,36 @@ def run(ctx):
                  incs=['-I' + os.path.join(lib.ROOT, 'harness')])
     flatcc = ctx.flatcc()
 
+    if ctx.replay_in:
+        import json, subprocess
+        rp = json.load(open(ctx.replay_in))
+        d = os.path.join(ctx.bdir, 'replay'); src = os.path.join(d, 'src'); os.makedirs(src, exist_ok=True)
+        for n, t in rp['schema_files'].items(): open(os.path.join(src, n), 'w').write(t)
+        root = os.path.join(src, rp.get('root') or sorted(rp['schema_files'])[0])
+        q, p = rp.get('bgen_qualify_names', 1), rp.get('bgen_length_prefix', 0)
+        pr = subprocess.run([exe], input='gen %d %d %s %s %s\n' % (q, p, os.path.join(d, 'out'), src, root), stdout=subprocess.PIPE, stderr=subprocess.PIPE, text=True,
+                            errors='replace', timeout=300, env=dict(os.environ, ASAN_OPTIONS='detect_leaks=0:abort_on_error=0', UBSAN_OPTIONS='print_stacktrace=1'))
+        r = pr.stdout.split('END\n')[0] if 'END\n' in pr.stdout else 'CRASH ' + pr.stdout[:300] + ' || ' + ' '.join(pr.stderr.strip().split('\n')[-14:])[:1500]
+        ctx.log('harness:', r[:600].replace('\n', ' | '))
+        ctx.replay_case = (q, p, root, r, rp['schema_files'])
     nS = 240 if T else 40
+    if ctx.replay_in: nS = 0
     schemas = [G.gen_schema(random.Random(rng.getrandbits(64)), ['small', 'medium', 'medium', 'large'][i % 4] if T else ['small', 'medium'][i % 2]) for i in range(nS)]
-    # a hand-made schema with unsorted declaration order everywhere
+    # aimed: a ulong enum using the top bit (EnumVal.value is a signed long in reflection.fbs), calls declared in descending order
+    aim = G.Schema(); fl = G.File('aimtop'); aim.files = [fl]
+    e = G.Enum('Etop', [], 'ulong', bit_flags=True); e.members = [['Lo', 0], ['Mid', 62], ['Top', 63]]
+    t = G.Table('Taim', []); t.fields = [{'name': 'zf', 'type': ('enum', e), 'default': ('enum', 'Top', 1 << 63), 'attrs': []},
+                                         {'name': 'af', 'type': ('vec', ('enum', e)), 'attrs': []}]
+    sv = G.Service('Svcaim', []); sv.calls = [('Zcall', t, t), ('Mcall', t, t), ('Acall', t, t)]
+    fl.decls = [e, t, sv]; fl.root_type = t
+    for d in fl.decls: d.file = fl
+    if not ctx.replay_in: schemas.append(aim); nS += 1
     # layouts / ids from the extracted model
     mlines, meta = [], []
     for s in schemas:
         ls, order, tables = s.model_lines(cons['struct_max'], cons['force_align_max'], cons['vt_max'])
         meta.append((len(mlines), len(ls), order, tables)); mlines += ls
-    mres = ctx.run_model('layout', mlines)
+    mres = ctx.run_model('layout', mlines) if mlines else []
     exps = []
     for s, (st, n, order, tables) in zip(schemas, meta):
         res = mres[st:st + n]; lay, ids = {}, {}; k = 0
@@ -308,20 +329,21 @@ def run(ctx):
     stats = {'objects': 0, 'fields': 0, 'enums': 0, 'values': 0, 'services': 0, 'calls': 0}
     unsorted_attr = 0
     ref_bytes = {}
-    for (i, q, p, d, root), r in flat:
-        s = schemas[i]; lay, ids = exps[i]
-        rep = {'schema_files': s.render(), 'root': os.path.basename(root), 'bgen_qualify_names': q, 'bgen_length_prefix': p}
-        ctx.count(repr((i, q, p, sorted(s.render().items()))), klass='schema_q%d_p%d' % (q, p))
+    replay_files = None
+    def evaluate(i, q, p, root, r, s, lay, ids):
+        nonlocal unsorted_attr
+        rep = {'schema_files': s.render() if s is not None else replay_files, 'root': os.path.basename(root), 'bgen_qualify_names': q, 'bgen_length_prefix': p}
+        ctx.count(repr((i, q, p, sorted(rep['schema_files'].items()))), klass='schema_q%d_p%d' % (q, p))
         if r.startswith('CRASH'):
             m = re.search(r'(AddressSanitizer: [\w-]+|runtime error: [^\n]{0,60}|Assertion `[^\']*\')', r)
-            ctx.violation('crash:bfbs:%s' % (re.sub(r'\s+', '_', m.group(1))[:80] if m else 'abort') + (':prefix' if p else ''),
+            ctx.violation('crash:bfbs:%s' % (re.sub(r'\s+', '_', re.sub(r"0x[0-9a-f]+.*|'.*", '', m.group(1)).strip())[:80] if m else 'abort') + (':prefix' if p else ''),
                           'binary schema generation crashed (qualify=%d, length_prefix=%d): %s' % (q, p, r[-700:]), rep)
-            continue
+            return
         L = {l.split(' ', 1)[0]: l.split(' ', 1)[1] if ' ' in l else '' for l in r.strip().split('\n') if l}
         if L.get('P', '').split()[:1] != ['0']:
-            ctx.violation('schema-rejected', 'generated schema rejected by parse_file: %s' % L.get('P'), rep); continue
+            ctx.violation('schema-rejected', 'generated schema rejected by parse_file: %s' % L.get('P'), rep); return
         if 'A' not in L or L['A'] == 'FAIL':
-            ctx.violation('bfbs-alloc-failed', 'flatcc_generate_binary_schema returned null for an accepted schema', rep); continue
+            ctx.violation('bfbs-alloc-failed', 'flatcc_generate_binary_schema returned null for an accepted schema', rep); return
         size = int(L['A'])
         b = bytes.fromhex(L.get('H', ''))
         rep['bfbs_hex'] = L.get('H', '')[:20000]
@@ -349,33 +371,45 @@ def run(ctx):
         # ---- verifier
         V = L['V'].split(' ', 1)
         if V[0] != '0':
-            ctx.violation('verify-rejects', 'reflection_Schema_verify_as_root rejects the generated binary schema: %s' % V[1], rep); continue
+            ctx.violation('verify-rejects', 'reflection_Schema_verify_as_root rejects the generated binary schema: %s' % V[1], rep); return
         # ---- content
         body = b[4:] if p else b
         try:
             dec = decode(body)
         except Malformed as e:
-            ctx.violation('bfbs-malformed', 'independent decoder: %s' % e, rep); continue
-        exp = expected(s, q, lay, ids)
+            ctx.violation('bfbs-malformed', 'independent decoder: %s' % e, rep); return
+        if s is None: exp = None
+        else: exp = expected(s, q, lay, ids)
         dec_cmp = dict(dec, services=[dict(sv, calls=sorted(sv['calls'], key=lambda c: c['name'].encode())) for sv in dec['services']])
-        df = first_diff(exp, dec_cmp)
+        df = first_diff(exp, dec_cmp) if exp is not None else None
         if df:
             what = df[0].rsplit('.', 1)[-1].rsplit('/', 1)[-1].split('#')[0]
             ctx.violation('content:%s' % what, 'binary schema differs from the schema at %s: expected %r, found %r (qualify=%d, prefix=%d)' % (df[0], df[1], df[2], q, p), rep)
         # ---- sorted + searchable
         sp = sorted_problems(dec)
+        topbit = any(e['underlying'][0] == BT['ULong'] and any(v['value'] < 0 for v in e['values']) for e in dec['enums'])
         S = dict(x.split('=', 1) for x in L.get('S', '').split()) if 'S' in L else {}
         for what, x, y in sp[:1]:
-            ctx.violation('unsorted:%s' % what.split(' ')[0], 'vector `%s` is not sorted by its key: %r before %r' % (what, x, y), rep)
+            kind = what.split(' ')[0]
+            if kind == 'values' and topbit: kind = 'values-ulong-top-bit'
+            ctx.violation('unsorted:%s' % kind, 'vector `%s` is not sorted by its key: %r before %r' % (what, x, y), rep)
         for k in ('objects', 'enums', 'services', 'fields', 'calls', 'values'):
             if k in S:
                 fl, n = S[k].split('/'); stats[k] += int(n)
                 if int(fl):
-                    ctx.violation('find:%s' % k, 'generated find fails for %s of %s %s entries (first: %s)' % (fl, n, k, S.get('first')), rep)
+                    ctx.violation('find:%s' % (k + '-ulong-top-bit' if (k == 'values' and topbit) else k), 'generated find fails for %s of %s %s entries (first: %s)' % (fl, n, k, S.get('first')), rep)
         for o in dec['objects']:
             for f in [o] + o['fields']:
                 a = f.get('attrs')
                 if a and [x[0] for x in a] != sorted(x[0] for x in a): unsorted_attr += 1
+
+    for (i, q, p, d, root), r in flat:
+        evaluate(i, q, p, root, r, schemas[i], exps[i][0], exps[i][1])
+    if ctx.replay_in:
+        q, p, root, r, replay_files = ctx.replay_case
+        evaluate(-1, q, p, root, r, None, None, None)
+        ctx.finish_args = dict(rule='replay of one recorded input (paths, verifier, sortedness, find; no AST comparison)', explanation='replay')
+        return
     ctx.cov['searched_entries'] = stats
     ctx.cov['attribute_vectors_in_declaration_order_not_sorted'] = unsorted_attr
     if unsorted_attr:
